@@ -38,4 +38,3 @@ try:
             print("   ", l[:400])
 finally:
     subprocess.call(["git", "-C", "/repo", "worktree", "remove", "--force", wt])
-    subprocess.call("rm -f /verif/replays/*/new-*.json", shell=True)
